@@ -86,7 +86,7 @@ def main(tier, prop='C01', anp=False):
         run.proof_ok = False
         run.proof_notes.append('harness verifapi does not build against this tree: ' + b['verifapi'][1][-600:])
         return run.finish()
-    n = 240 if tier == 'quick' else 6000
+    n = 320 if tier == 'quick' else 6000
     h = listcorr.Harness()
     try:
         shard = 120
